@@ -1177,3 +1177,38 @@ impl<'r, 't> exec::Executor<'r, 't> for BacktrackExecutor<'r, AsciiInput<'t>> {
         }
     }
 }
+
+/// Verification hook: a single anchored match attempt at byte offset `pos`.
+/// \return the end offset and the capture ranges.
+#[cfg(regress_verif)]
+pub(crate) fn verif_attempt(
+    re: &CompiledRegex,
+    text: &str,
+    pos: usize,
+    ascii: bool,
+) -> Option<(usize, Vec<Option<Range<usize>>>)> {
+    fn go<Input: InputIndexer>(
+        re: &CompiledRegex,
+        input: Input,
+        pos: usize,
+    ) -> Option<(usize, Vec<Option<Range<usize>>>)> {
+        let mut matcher = MatchAttempter::new(re, input.left_end());
+        let start = input.try_move_right(input.left_end(), pos)?;
+        let end = matcher.try_at_pos(input, 0, start, Forward::new())?;
+        let caps = matcher
+            .s
+            .groups
+            .iter()
+            .map(|gd| {
+                gd.as_range()
+                    .map(|r| input.pos_to_offset(r.start)..input.pos_to_offset(r.end))
+            })
+            .collect();
+        Some((input.pos_to_offset(end), caps))
+    }
+    if ascii {
+        go(re, AsciiInput::new(text, re.flags.unicode), pos)
+    } else {
+        go(re, Utf8Input::new(text, re.flags.unicode), pos)
+    }
+}
